@@ -1,10 +1,8 @@
 /-
 JSON text round trip for the fuelled parser `Json.parse` of `PubgrubModel/Serde.lean`.
 
-`Json.render` in the model is a `partial def`, hence an opaque constant for the logic: nothing can be
-proved about it.  This file defines a total twin `Json.renderC : Json → List Char` (the same printer,
-on character lists, by structural recursion), checks by `#guard` that it agrees with `Json.render` on
-sample values, and proves `Json.parse (String.ofList (renderC j)) = some j` for every JSON value
+`Json.render` in the model is `String.ofList ∘ Json.renderC`, a total printer on character lists by
+structural recursion.  This file proves `Json.parse (String.ofList (renderC j)) = some j` for every JSON value
 whose strings and keys contain no `'"'`.
 -/
 import PubgrubModel.Serde
@@ -12,27 +10,6 @@ import Std.Data.String.ToNat
 
 namespace Pubgrub
 namespace Json
-
-/-! ### total printer -/
-
-mutual
-def renderC : Json → List Char
-  | .null => ['n', 'u', 'l', 'l']
-  | .num n => Nat.toDigits 10 n
-  | .str s => '"' :: (s.toList ++ ['"'])
-  | .arr [] => ['[', ']']
-  | .arr (j :: js) => '[' :: (renderC j ++ renderItems js)
-  | .obj [] => ['{', '}']
-  | .obj ((k, v) :: fs) => '{' :: '"' :: (k.toList ++ '"' :: ':' :: (renderC v ++ renderFields fs))
-/-- the items after the first, and the closing bracket -/
-def renderItems : List Json → List Char
-  | [] => [']']
-  | j :: js => ',' :: (renderC j ++ renderItems js)
-/-- the fields after the first, and the closing brace -/
-def renderFields : List (String × Json) → List Char
-  | [] => ['}']
-  | (k, v) :: fs => ',' :: '"' :: (k.toList ++ '"' :: ':' :: (renderC v ++ renderFields fs))
-end
 
 mutual
 def Clean : Json → Prop
